@@ -57,6 +57,17 @@ inductive Reason
   | cancelled            -- "actor_task_cancelled"
   deriving DecidableEq, Repr, Inhabited
 
+/-- A reason supplied by the user of `stop(reason)`. The reserved texts "Drained", "killed",
+"actor_task_cancelled" are not user reasons (a user who passes them makes the events
+indistinguishable; the harness never does). -/
+def Reason.ofUser : Option String → Reason
+  | .none => .none
+  | .some s => .text s
+
+def Reason.isUser : Reason → Bool
+  | .none | .text _ => true
+  | _ => false
+
 /-- Supervision events as they travel through a supervision port. -/
 inductive SupEv
   | started (c : Nat)
@@ -71,7 +82,7 @@ def SupEv.isTerminal : SupEv → Bool
 def SupEv.who : SupEv → Nat
   | .started c => c | .terminated c _ _ => c | .failed c _ _ => c
 
-inductive Fx | sendSelf (m : Nat) | stopSelf (r : Reason) | killSelf
+inductive Fx | sendSelf (m : Nat) | stopSelf (r : Option String) | killSelf
   deriving DecidableEq, Repr, Inhabited
 
 inductive Term | tick | ok | err (n : Nat) | panic (n : Nat)
@@ -335,7 +346,7 @@ def afterPre (a : Actor) (supOk : Bool) (r : Res) : M :=
 
 def runFx (a : Actor) : Fx → M
   | .sendSelf m => ((apiSend a m).1, [.ev (.sendRet true m (apiSend a m).2)])
-  | .stopSelf r => ((apiStop a r).1, [.ev (.stopRet true r (apiStop a r).2)])
+  | .stopSelf r => ((apiStop a (.ofUser r)).1, [.ev (.stopRet true (.ofUser r) (apiStop a (.ofUser r)).2)])
   | .killSelf => ((apiKill a).1, [.ev (.killRet true (apiKill a).2)])
 
 def runFxs (a : Actor) : List Fx → M
@@ -363,7 +374,7 @@ inductive AOp
   | abort
   | resume (s : Seg)
   | send (m : Nat)
-  | stop (r : Reason)
+  | stop (r : Option String)
   | kill
   | drain
   | supArrive (e : SupEv)        -- environment: an event is handed to my supervision port
@@ -462,7 +473,7 @@ def opTreeTaken (a : Actor) : M :=
 /-- API calls and environment ops on an existing cell. -/
 def Actor.envOp (a : Actor) : AOp → M
   | .send m => ((apiSend a m).1, [.ev (.sendRet false m (apiSend a m).2)])
-  | .stop r => ((apiStop a r).1, [.ev (.stopRet false r (apiStop a r).2)])
+  | .stop r => ((apiStop a (.ofUser r)).1, [.ev (.stopRet false (.ofUser r) (apiStop a (.ofUser r)).2)])
   | .kill => ((apiKill a).1, [.ev (.killRet false (apiKill a).2)])
   | .drain => ((apiDrain a).1, [.ev (.drainRet (apiDrain a).2)])
   | .supArrive e => opSupArrive a e
@@ -561,7 +572,7 @@ inductive Op
   | abort (a : Nat)
   | resume (a : Nat) (s : Seg)
   | send (a : Nat) (m : Nat)
-  | stop (a : Nat) (r : Reason)
+  | stop (a : Nat) (r : Option String)
   | kill (a : Nat)
   | drain (a : Nat)
   deriving DecidableEq, Repr, Inhabited
